@@ -15,6 +15,7 @@ EXPLANATION = (
     "This decides the ordering clause of the property exactly on the analysed configurations; it does not decide "
     "that the allow-listed core functions do not allocate (trusted) nor hardware reordering beyond the fences."
     " R02.5 ThreadAllocInfo::clear is unconditional and total (whole struct from new(), or every field). R02.6 the overhead subtracted from a sample is computed from that same raw sample's allocation info. R02.7 every measurement a Timer method caches in a static lives in a per-kind array read at self.kind() as usize and is initialised by measuring with the captured timer.")
+EXPLANATION += (' R02.8 (= R19.1/R19.2) per-sample allocation snapshots and counter values are discarded with the timings of the tuning rounds.')
 NOT_DECIDED = ["that allow-listed core leaf functions do not allocate (trusted)",
                "hardware reordering beyond the stated fences"]
 TRUSTED = ["core::iter / MaybeUninit / UnsafeCell / black_box / mem::forget are allocation-free leaf functions"]
